@@ -26,6 +26,7 @@ type SpecEnv struct {
 	calleeMode bool
 	assigned   []string
 	qn         *int
+	pol        int // +1: formula will be proved, -1: formula will be assumed, 0: unknown polarity
 }
 
 // UntypedInt: integer literal that adapts to its context.
@@ -34,6 +35,31 @@ type UntypedInt struct{ N *big.Int }
 func (UntypedInt) vkind() string { return "untyped" }
 
 var quantCounter int
+
+func (e *SpecEnv) flip() *SpecEnv {
+	n := *e
+	n.pol = -e.pol
+	return &n
+}
+
+func (e *SpecEnv) nopol() *SpecEnv {
+	n := *e
+	n.pol = 0
+	return &n
+}
+
+// evalAssume / evalProve evaluate a clause with the polarity it will be used in.
+func (e *SpecEnv) evalAssume(x ast.Expr) Term {
+	n := *e
+	n.pol = -1
+	return n.evalBool(x)
+}
+
+func (e *SpecEnv) evalProve(x ast.Expr) Term {
+	n := *e
+	n.pol = +1
+	return n.evalBool(x)
+}
 
 func (e *SpecEnv) with(cur *State) *SpecEnv {
 	n := *e
@@ -145,7 +171,7 @@ func (e *SpecEnv) eval(x ast.Expr) Value {
 	case *ast.UnaryExpr:
 		switch n.Op {
 		case token.NOT:
-			return BoolV{T: Not(e.evalBool(n.X))}
+			return BoolV{T: Not(e.flip().evalBool(n.X))}
 		case token.SUB:
 			v := e.eval(n.X)
 			if u, ok := v.(UntypedInt); ok {
@@ -270,6 +296,14 @@ func (e *SpecEnv) selector(n *ast.SelectorExpr) Value {
 		}
 		e.fail(n, "no field %s in struct value", name)
 	case RefV, PtrV:
+		if pb, ok := base.(PtrV); ok && (pb.Kind == PSlot || pb.Kind == PByte || pb.Kind == PField || pb.Kind == PByteArr || pb.Kind == PSlotArr) {
+			switch name {
+			case "obj":
+				return RefV{T: pb.Obj}
+			case "idx":
+				return IntV{T: pb.Idx, W: 64, Signed: true}
+			}
+		}
 		p := e.fieldPtr(base, name, n)
 		if p == nil {
 			e.fail(n, "cannot select %s from %s", name, describe(base))
@@ -370,11 +404,23 @@ func (e *SpecEnv) coerce(a, b Value) (Value, Value) {
 func (e *SpecEnv) binary(n *ast.BinaryExpr) Value {
 	switch n.Op {
 	case token.LAND:
-		return BoolV{T: And(e.evalBool(n.X), e.evalBool(n.Y))}
+		a := e.evalBool(n.X)
+		if a.IsFalse() {
+			return BoolV{T: False}
+		}
+		return BoolV{T: And(a, e.evalBool(n.Y))}
 	case token.LOR:
-		return BoolV{T: Or(e.evalBool(n.X), e.evalBool(n.Y))}
+		a := e.evalBool(n.X)
+		if a.IsTrue() {
+			return BoolV{T: True}
+		}
+		return BoolV{T: Or(a, e.evalBool(n.Y))}
 	}
-	a, b := e.coerce(e.eval(n.X), e.eval(n.Y))
+	sub := e
+	if n.Op == token.EQL || n.Op == token.NEQ {
+		sub = e.nopol()
+	}
+	a, b := e.coerce(sub.eval(n.X), sub.eval(n.Y))
 	// struct equality (nodeRef == nodeRef)
 	if sa, ok := a.(StructV); ok {
 		if sb, ok := b.(StructV); ok && (n.Op == token.EQL || n.Op == token.NEQ) {
@@ -459,6 +505,12 @@ func (e *SpecEnv) eqValues(a, b Value, n ast.Node) Term {
 		if y, ok := b.(RefV); ok {
 			return Eq(y.T, Null)
 		}
+		if _, ok := b.(NilV); ok {
+			return True
+		}
+		if _, ok := b.(PtrV); ok {
+			return False
+		}
 	case OpaqueV:
 		if y, ok := b.(OpaqueV); ok {
 			return Eq(x.T, y.T)
@@ -505,11 +557,21 @@ func (e *SpecEnv) callExpr(n *ast.CallExpr) Value {
 		}
 		return e.with(e.old).eval(arg(0))
 	case "implies":
-		return BoolV{T: Implies(e.evalBool(arg(0)), e.evalBool(arg(1)))}
+		a := e.flip().evalBool(arg(0))
+		if a.IsFalse() {
+			return BoolV{T: True} // guarded expression is not evaluated
+		}
+		return BoolV{T: Implies(a, e.evalBool(arg(1)))}
 	case "iff":
-		return BoolV{T: Eq(e.evalBool(arg(0)), e.evalBool(arg(1)))}
+		return BoolV{T: Eq(e.nopol().evalBool(arg(0)), e.nopol().evalBool(arg(1)))}
 	case "ite":
-		c := e.evalBool(arg(0))
+		c := e.nopol().evalBool(arg(0))
+		if c.IsTrue() {
+			return e.eval(arg(1))
+		}
+		if c.IsFalse() {
+			return e.eval(arg(2))
+		}
 		a, b := e.coerce(e.eval(arg(1)), e.eval(arg(2)))
 		if ua, ok := a.(UntypedInt); ok {
 			a = IntV{T: IntBig(ua.N), W: 64, Signed: true}
@@ -517,9 +579,100 @@ func (e *SpecEnv) callExpr(n *ast.CallExpr) Value {
 		if ub, ok := b.(UntypedInt); ok {
 			b = IntV{T: IntBig(ub.N), W: 64, Signed: true}
 		}
+		if _, ok := a.(NilV); ok {
+			a = RefV{T: Null}
+		}
+		if _, ok := b.(NilV); ok {
+			b = RefV{T: Null}
+		}
+		if ia, ok := a.(IntV); ok {
+			if ib, ok := b.(IntV); ok && ia.T.Sort != ib.T.Sort {
+				a = IntV{T: ex.idxTerm(ia), W: 64, Signed: true}
+				b = IntV{T: ex.idxTerm(ib), W: 64, Signed: true}
+			}
+		}
 		return ex.iteValue(c, a, b)
 	case "forall", "exists":
 		return e.quant(n, fname)
+	case "forallp":
+		// probe-forall: universally quantified clause handled by generalisation on a constant.
+		// Proved for the arbitrary-but-fixed probe constant (valid for all values, since nothing
+		// is assumed about the probe but its range); assumed at the probe and at every
+		// byte-typed variable in scope. Keeps view clauses quantifier-free.
+		name := arg(0).(*ast.Ident).Name
+		lo, hi := e.evalInt(arg(1)), e.evalInt(arg(2))
+		probe := ex.st.Const("probe."+name, SInt)
+		inst := func(t Term) Term {
+			rng := And(ICmp("<=", lo, t), ICmp("<", t, hi))
+			var side []Term
+			restore := e.collectInto(&side)
+			body := e.bind(name, IntV{T: t, W: 64, Signed: true}).evalBool(arg(3))
+			restore()
+			if e.pol < 0 {
+				return Implies(rng, And(append(side, body)...))
+			}
+			return Implies(And(append([]Term{rng}, side...)...), body)
+		}
+		if e.pol > 0 {
+			return BoolV{T: inst(probe)}
+		}
+		if e.pol == 0 {
+			e.fail(n, "forallp under unknown polarity")
+		}
+		parts := []Term{inst(probe)}
+		seen := map[string]bool{probe.S: true}
+		var names []string
+		for k := range e.vars {
+			names = append(names, k)
+		}
+		sortStrings(names)
+		for _, k := range names {
+			if iv, ok := e.vars[k].(IntV); ok && iv.W == 8 && iv.T.Sort == SInt && !seen[iv.T.S] {
+				seen[iv.T.S] = true
+				parts = append(parts, inst(iv.T))
+			}
+		}
+		return BoolV{T: And(parts...)}
+	case "cntP", "cntNZ":
+		// counting spec functions over a node's children / keys row (see lemmas.go)
+		loc, ok := e.lvalue(arg(0)).(PtrV)
+		nT := e.evalInt(arg(1))
+		if !ok || (loc.Kind != PSlotArr && loc.Kind != PByteArr) {
+			e.fail(n, "%s: first argument must be an array field of a node", fname)
+		}
+		if c, okc := loc.Idx.IntConst(); !okc || c.Sign() != 0 {
+			e.fail(n, "%s: array must start at offset 0 of its row", fname)
+		}
+		var row Term
+		if fname == "cntP" {
+			if loc.Kind != PSlotArr {
+				e.fail(n, "cntP needs an array of nodeRef")
+			}
+			row = e.cur.sel(e.cur.H(ex, "SP", ex.spSort()), loc.Obj)
+		} else {
+			if loc.Kind != PByteArr || ex.mode != ModeInt {
+				e.fail(n, "cntNZ needs a byte array (int mode)")
+			}
+			row = e.cur.sel(e.cur.H(ex, "B", ex.bSort()), loc.Obj)
+		}
+		return IntV{T: App(SInt, fname, row, nT), W: 64, Signed: true}
+	case "count":
+		// count(i, lo, hi, cond): number of i in [lo,hi) with cond(i) (constant bounds; a finite sum)
+		name := arg(0).(*ast.Ident).Name
+		lo, okl := e.evalInt(arg(1)).IntConst()
+		hi, okh := e.evalInt(arg(2)).IntConst()
+		if !okl || !okh || hi.Int64()-lo.Int64() > 256 {
+			e.fail(n, "count: bounds must be small constants")
+		}
+		var parts []Term
+		for i := lo.Int64(); i < hi.Int64(); i++ {
+			c := e.bind(name, UntypedInt{N: big.NewInt(i)}).evalBool(arg(3))
+			parts = append(parts, Ite(c, IntC(1), IntC(0)))
+		}
+		if len(parts) == 0 {
+			return IntV{T: IntC(0), W: 64, Signed: true}
+		}
+		return IntV{T: App(SInt, "+", append(parts, IntC(0))...), W: 64, Signed: true}
 	case "first":
 		// first(i, lo, hi, cond): least i in [lo,hi) with cond(i), else -1 (constant bounds)
 		name := arg(0).(*ast.Ident).Name
@@ -538,12 +691,24 @@ func (e *SpecEnv) callExpr(n *ast.CallExpr) Value {
 		name := arg(0).(*ast.Ident).Name
 		quantCounter++
 		v := Term{fmt.Sprintf("q!%s!%d", name, quantCounter), SRef}
+		var side []Term
+		restore := e.collectInto(&side)
 		body := e.bind(name, RefV{T: v}).evalBool(arg(1))
-		q := "forall"
+		restore()
+		facts := And(side...)
 		if fname == "existsref" {
-			q = "exists"
+			if e.pol < 0 {
+				return BoolV{T: Term{fmt.Sprintf("(exists ((%s Ref)) %s)", v.S, And(facts, body).S), SBool}}
+			}
+			return BoolV{T: Term{fmt.Sprintf("(exists ((%s Ref)) %s)", v.S, body.S), SBool}}
 		}
-		return BoolV{T: Term{fmt.Sprintf("(%s ((%s Ref)) %s)", q, v.S, body.S), SBool}}
+		switch {
+		case e.pol > 0:
+			return BoolV{T: Term{fmt.Sprintf("(forall ((%s Ref)) %s)", v.S, Implies(facts, body).S), SBool}}
+		case e.pol < 0:
+			return BoolV{T: Term{fmt.Sprintf("(forall ((%s Ref)) %s)", v.S, And(facts, body).S), SBool}}
+		}
+		return BoolV{T: Term{fmt.Sprintf("(forall ((%s Ref)) %s)", v.S, body.S), SBool}}
 	case "lane":
 		return e.lane(e.eval(arg(0)), e.eval(arg(1)), n)
 	case "len":
@@ -613,6 +778,50 @@ func (e *SpecEnv) callExpr(n *ast.CallExpr) Value {
 			objs = append(objs, e.refTerm(e.eval(a), n))
 		}
 		return BoolV{T: e.frame(objs)}
+	case "frameSlot":
+		// frameSlot(p): in the object holding slot *p nothing but that slot changed
+		pv, ok := e.eval(arg(0)).(PtrV)
+		if !ok || pv.Kind != PSlot {
+			e.fail(n, "frameSlot: argument must be a *nodeRef")
+		}
+		return BoolV{T: e.frameSlot(pv)}
+	case "sameObjExcept":
+		// sameObjExcept(o, "A", "B", ...): every heap array agrees with the old state at object o,
+		// except the named arrays
+		o := e.refTerm(e.eval(arg(0)), n)
+		skip := map[string]bool{}
+		for _, a := range n.Args[1:] {
+			skip[strings.Trim(exprString(a), "\"")] = true
+		}
+		var names []string
+		for h := range ex.heapSorts {
+			names = append(names, h)
+		}
+		sortStrings(names)
+		var parts []Term
+		for _, h := range names {
+			srt := ex.heapSorts[h]
+			if skip[h] || h == "alloc" || h == "atype" || h == "pooled" || srt == "" || indexSort(srt) != SRef {
+				continue
+			}
+			before, after := e.old.H(ex, h, srt), e.cur.H(ex, h, srt)
+			if before.S != after.S {
+				parts = append(parts, Eq(e.cur.sel(after, o), e.old.sel(before, o)))
+			}
+		}
+		return BoolV{T: And(parts...)}
+	case "sameBytes":
+		// sameBytes(o, lo, hi): bytes [lo,hi) of object o are unchanged
+		o := e.refTerm(e.eval(arg(0)), n)
+		lo, hi := e.evalInt(arg(1)), e.evalInt(arg(2))
+		before, after := e.old.H(ex, "B", ex.bSort()), e.cur.H(ex, "B", ex.bSort())
+		if before.S == after.S {
+			return BoolV{T: True}
+		}
+		quantCounter++
+		v := Term{fmt.Sprintf("q!sb!%d", quantCounter), SInt}
+		body := Implies(And(ICmp("<=", lo, v), ICmp("<", v, hi)), Eq(Select(e.cur.sel(after, o), v), Select(e.old.sel(before, o), v)))
+		return BoolV{T: Term{fmt.Sprintf("(forall ((%s Int)) %s)", v.S, body.S), SBool}}
 	case "unchanged":
 		// unchanged(name): heap array 'name' is identical to its old version
 		name := strings.Trim(exprString(arg(0)), "\"")
@@ -724,12 +933,50 @@ func (e *SpecEnv) quant(n *ast.CallExpr, kind string) Value {
 	}
 	quantCounter++
 	v := Term{fmt.Sprintf("q!%s!%d", name, quantCounter), SInt}
+	var side []Term
+	restore := e.collectInto(&side)
 	body := e.bind(name, IntV{T: v, W: 64, Signed: true}).evalBool(n.Args[3])
+	restore()
+	// facts about loaded values (machine ranges, allocation) are valid for every index:
+	// hypotheses under forall, conjuncts under exists
 	rng := And(ICmp("<=", lo, v), ICmp("<", v, hi))
-	if kind == "forall" {
-		return BoolV{T: Term{fmt.Sprintf("(forall ((%s Int)) %s)", v.S, Implies(rng, body).S), SBool}}
+	facts := And(side...)
+	// the side facts are valid for every index (type invariants of the heap): they may be
+	// used as hypotheses where the formula is proved and as conjuncts where it is assumed
+	univ := kind == "forall"
+	var inner Term
+	switch {
+	case univ && e.pol > 0:
+		inner = Implies(And(rng, facts), body)
+	case univ && e.pol < 0:
+		inner = Implies(rng, And(facts, body))
+	case univ:
+		inner = Implies(rng, body)
+	case e.pol < 0:
+		inner = And(rng, facts, body)
+	default:
+		inner = And(rng, body)
 	}
-	return BoolV{T: Term{fmt.Sprintf("(exists ((%s Int)) %s)", v.S, And(rng, body).S), SBool}}
+	if univ {
+		return BoolV{T: Term{fmt.Sprintf("(forall ((%s Int)) %s)", v.S, inner.S), SBool}}
+	}
+	return BoolV{T: Term{fmt.Sprintf("(exists ((%s Int)) %s)", v.S, inner.S), SBool}}
+}
+
+// collectInto redirects assumptions made while evaluating a quantifier body.
+func (e *SpecEnv) collectInto(side *[]Term) func() {
+	c1, c2 := e.cur.collect, (*[]Term)(nil)
+	e.cur.collect = side
+	if e.old != nil && e.old != e.cur {
+		c2 = e.old.collect
+		e.old.collect = side
+	}
+	return func() {
+		e.cur.collect = c1
+		if e.old != nil && e.old != e.cur {
+			e.old.collect = c2
+		}
+	}
 }
 
 // lane(w, i): byte i (0 = least significant) of a packed word.
@@ -832,4 +1079,37 @@ func (e *SpecEnv) fpBuiltin(name string, n *ast.CallExpr) Value {
 		return BoolV{T: App(SBool, "fp.isZero", f(0))}
 	}
 	return nil
+}
+
+// frameSlot: every heap array agrees with the old state at object p.Obj, except the
+// nodeRef slot p.Idx of that object.
+func (e *SpecEnv) frameSlot(p PtrV) Term {
+	ex := e.ex
+	var names []string
+	for h := range ex.heapSorts {
+		names = append(names, h)
+	}
+	sortStrings(names)
+	var parts []Term
+	for _, h := range names {
+		if h == "alloc" || h == "atype" || h == "pooled" {
+			continue
+		}
+		srt := ex.heapSorts[h]
+		if srt == "" || indexSort(srt) != SRef {
+			continue
+		}
+		before := e.old.H(ex, h, srt)
+		after := e.cur.H(ex, h, srt)
+		if before.S == after.S {
+			continue
+		}
+		if h == "SP" || h == "ST" {
+			rowB, rowA := Select(before, p.Obj), Select(after, p.Obj)
+			parts = append(parts, Eq(rowA, Store(rowB, p.Idx, Select(rowA, p.Idx))))
+			continue
+		}
+		parts = append(parts, Eq(Select(after, p.Obj), Select(before, p.Obj)))
+	}
+	return And(parts...)
 }
